@@ -192,7 +192,15 @@ def replay_wiring(build, values, cpath, oname):
     for src, abs_in in ivc_in.items():
         ins_by_local.setdefault(abs_in.rsplit(".", 1)[-1], abs_in)
     p2 = om.Problem(reports=False)
-    fresh = type(comp)(**{k: comp.options[k] for k in comp.options if k not in ("assembled_jac_type", "derivs_method", "distributed", "run_root_only", "always_opt", "use_jit", "default_shape")})
+    kw = {}
+    for k in comp.options:
+        if k in ("assembled_jac_type", "derivs_method", "distributed", "run_root_only", "always_opt", "use_jit", "default_shape"):
+            continue
+        try:
+            kw[k] = comp.options[k]
+        except Exception:
+            pass  # a declared option that the group never set
+    fresh = type(comp)(**kw)
     p2.model.add_subsystem("c", fresh, promotes=["*"])
     with warnings.catch_warnings():
         warnings.simplefilter("ignore")
